@@ -423,7 +423,7 @@ func Run(c *engine.Ctx) {
 func wide(c *engine.Ctx) {
 	c.Group("wide-independence")
 	sizes := []int{40, 515, 1027, 2000}
-	c.Bound("wide-independence", fmt.Sprintf("lists of %v nodes x {Copy, Union as left / right operand, Intersect} x edits (name, appended licence, new hash key, supplier name) at nodes 0, n/2, n-2, n-1 of the result or of an operand; GOMAXPROCS=%d", sizes, runtime.GOMAXPROCS(0)))
+	c.Bound("wide-independence", fmt.Sprintf("lists of %v nodes x {Copy, Union as left / right operand, Intersect} x edits (name, appended licence, new hash key, supplier name) at nodes 0, n/2, n-2, n-1 of the result or of an operand x GOMAXPROCS {2, 3, 16}", sizes))
 	mk := func(n int, tag string) *sbom.NodeList {
 		nl := &sbom.NodeList{}
 		for i := 0; i < n; i++ {
@@ -453,11 +453,12 @@ func wide(c *engine.Ctx) {
 	}
 	for _, n := range sizes {
 		for oi := range ops {
-			for side := 0; side < 3; side++ { // edit the result / operand A / operand B
-				n, oi, side := n, oi, side
+			for sp := 0; sp < 9; sp++ { // edit the result / operand A / operand B  x  number of processors 2 / 3 / 16 (an environment answer)
+				n, oi, side, procs := n, oi, sp%3, []int{2, 3, 16}[sp/3]
 				c.Case(func() any {
-					return map[string]any{"nodes": n, "op": ops[oi].Name, "edited": []string{"result", "A", "B"}[side]}
+					return map[string]any{"nodes": n, "op": ops[oi].Name, "edited": []string{"result", "A", "B"}[side], "GOMAXPROCS": procs}
 				}, func(t *engine.T) *engine.Violation {
+					defer runtime.GOMAXPROCS(runtime.GOMAXPROCS(procs))
 					a, b := mk(n, "A"), mk(n, "B")
 					r := ops[oi].Do(a, b)
 					t.Transitions(1)
@@ -481,7 +482,7 @@ func wide(c *engine.Ctx) {
 							return engine.Violate("result-independent", "wide:"+ops[oi].Name, "%s on %d-node lists: editing nodes of %s changed %s: %s", ops[oi].Name, n, []string{"the result", "operand A", "operand B"}[side], []string{"the result", "operand A", "operand B"}[i], gen.SnapDiff(before[i], after))
 						}
 					}
-					t.State(fmt.Sprint("wide", n, oi, side))
+					t.State(fmt.Sprint("wide", n, oi, side, procs))
 					t.Outcome("wide-independent-ok")
 					return nil
 				})
